@@ -26,7 +26,10 @@ def catching(fn, *a, **kw):
     try:
         return ('ok', fn(*a, **kw))
     except real.Hang:
+        real.note_hang('%s%r' % (getattr(fn, '__name__', fn), a)[:400], fn, a)
         return ('hang', None)
+    except real.GiveUp:
+        raise
     except Exception as e:  # noqa
         return ('err', e)
 
@@ -692,8 +695,17 @@ def fault_stream(ctx, frames, per_frame):
     for _ in range(200):
         yield bytes(g.r.getrandbits(8) for _ in range(g.r.randrange(0, 64)))
     # the known amplification families (D2, D3, D11)
-    yield b'\x01\x00\x01' + struct.pack('>I', 4 + 11) + struct.pack('>I', 0x000A000B) + b'\x00\x00\x00\x07A\x00\x00\x00\x0ab\x01' + b'\xce'
-    yield b'\x02\x00\x01\x00\x00\x00\x0e' + b'\x00\x3c\x00\x00' + b'\x00' * 8 + b'\x00\x01' + b'\xce'
+    def queue_declare(tbl):       # the table is the LAST argument: a container inside it can reach the end of the payload
+        payload = struct.pack('>I', 0x0032000A) + b'\x00\x00' + b'\x00' + b'\x00' + struct.pack('>I', len(tbl)) + tbl
+        return b'\x01\x00\x01' + struct.pack('>I', len(payload)) + payload + b'\xce'
+    for inflated in (10, 255, 2 ** 16, 2 ** 32 - 1):
+        yield queue_declare(b'\x01kA' + struct.pack('>I', inflated) + b'b\x01')
+        yield queue_declare(b'\x01kA' + struct.pack('>I', inflated) + b'b\x01b\x02b\x03')
+        yield queue_declare(b'\x01kF' + struct.pack('>I', inflated) + b'\x01ab\x01')
+        yield queue_declare(b'\x01kA' + struct.pack('>I', inflated))
+    for words in (b'\x00\x01', b'\xff\xff', b'\x00\x01\x00\x01', b'\x80\x01\x00\x00'):
+        p_ = b'\x00\x3c\x00\x00' + b'\x00' * 8 + words
+        yield b'\x02\x00\x01' + struct.pack('>I', len(p_)) + p_ + b'\xce'
     for n in (8, 14, 20, 40):
         inner = b'V'
         for _ in range(n):
@@ -746,6 +758,8 @@ def oracle_c08(ctx, which='c08'):
             ratios.append(BUDGET.calls / max(len(data), 1))
             if bad:
                 res.violation('unbounded work or memory', {'fn': 'c08_case', 'args': pyrepr((data,))}, bad[0], bad[1])
+                if len(res.violations) >= 3:
+                    break
         else:
             bad = c09_case(data)
             if bad:
@@ -1677,6 +1691,38 @@ def oracle_c16(ctx):
                 res.violation('thread %d call %d differs from the sequential result' % (tid, i),
                               {'fn': 'none', 'args': '()', 'line': work[i][0][:500]}, str(e)[:300], str(o)[:300])
     return res
+
+
+@replayer
+def hang_case(name, args):
+    """a call that did not return: module.function of pamqp + positional arguments"""
+    mod, _, fn = name.partition('.')
+    target = getattr({'frame': frame, 'decode': decode, 'encode': encode, 'header': header}.get(mod), fn, None)
+    if target is None:
+        return ('replayable call', name)
+    try:
+        with real.deadline(10):
+            try:
+                target(*args)
+            except real.Hang:
+                raise
+            except Exception:  # noqa
+                pass
+    except real.Hang:
+        return ('returns or raises within 10 s', 'still running')
+    return None
+
+
+def hang_replay():
+    """replay descriptor of the first recorded hanging call whose arguments can be written down"""
+    for name, args in real.HANG_CALLS:
+        try:
+            r = pyrepr(tuple(args))
+            pyeval(r)
+            return {'fn': 'hang_case', 'args': pyrepr((name, tuple(args)))}
+        except Exception:  # noqa
+            continue
+    return {'fn': 'none', 'args': '()'}
 
 
 def replay(rep):
